@@ -25,6 +25,54 @@ CLAIMED = {
     technique=TECH + "; io-sim: fault-injecting Read/Write around the real Stats::write/read, split points enumerated"),
 }
 
+CLAIMED["C09"] = dict(
+    engine="lsp-sim",
+    category="exploration",
+    text=("The real harper-ls Backend runs under the real tower-lsp Server::serve on a simulator-owned executor; a seeded scheduler "
+          "decides every delivery of client bytes (with fragmentation), every answer to workspace/configuration, every completion of a "
+          "file operation and every drain of the server's output, under four policies (sequential, uniform random, latency-ordered "
+          "discrete-event, PCT-style priorities), over editor sessions of 1-3 documents in 30 language ids with edits, saves, closes, "
+          "deletes, configuration changes, dictionary and ignore commands and restarts. At every quiescent point and at the end, the last "
+          "publishDiagnostics per URI must equal a stateless recomputation from the editor model's truth (fresh dictionaries, fresh rule set, "
+          "own language table, own rule-switch resolution, own UTF-16 arithmetic); closed documents must be empty; a sentinel request must be "
+          "answered once input stops (bounded liveness); a server panic is a violation. Seeded sampling of histories and schedules: evidence, not proof."),
+    design_ref="DESIGN.md §3 C09",
+    note=("Trusted: tower-lsp/tokio::sync wake-ups are a deterministic consequence of the seams the simulator owns; the reference uses the same "
+          "harper-core library (fresh instances), so a defect that is independent of history, schedule and state is invisible here (that is C01-C04/C11). "
+          "main.rs is not executed; its Server configuration (concurrency level) is read from its source by the harness build script."),
+    technique=TECH + "; lsp-sim: real server on a simulated executor/transport/file-completion order, editor model as reference")
+CLAIMED["C07"] = dict(
+    engine="lsp-sim",
+    category="fault_enumeration",
+    text=("Sessions dominated by add-to-dictionary commands (server-offered and generated Unicode words, adversarial file-name pairs, case variants) "
+          "against the real server, with orderly restarts and process death. Crash points are enumerated, not sampled: for every crash-free base history, "
+          "the run is re-executed with the process killed right before each event of each dictionary save (mkdir, create, every write, flush, rename), and "
+          "for each write with the in-flight data landing as a prefix of 0, 1, half, all-but-one bytes; random crash placement is run in addition. "
+          "Oracles: dictionary files reload to exactly the acknowledged words (an in-flight word may or may not be there, never a fragment); after "
+          "every step the diagnostics of every open document equal the reference under the model's word sets (added words accepted, all else unchanged, "
+          "file words only in their file). Exhaustive over crash points per sampled history; histories are sampled."),
+    design_ref="DESIGN.md §3 C07",
+    note=("Durability model: process death (completed system calls persist); power loss is not modelled. One add command in flight at a time. "
+          "The harper_wasm import_words half of the property is exercised by api-sim under C16. Two genuine findings are listed in known_findings.jsonl "
+          "(case-variant replacement, file-dictionary name collision)."),
+    technique=TECH + "; lsp-sim with crash/restart, crash points enumerated per dictionary save, torn writes")
+CLAIMED["C10"] = dict(
+    engine="lsp-sim",
+    category="exploration",
+    text=("Every way out of the simulated process is a seam the harness owns: the harness binary defines libc's socket/connect/bind/listen/sendto/"
+          "sendmsg/getaddrinfo (recorded and refused) and open/openat/creat/mkdir/rename/unlink (recorded and forwarded), and the whole server runs inside it. "
+          "Over sessions that use every notification and command except HarperOpen, with the dictionary and statistics paths set, unset and changed, "
+          "the closed-world invariant is checked at every quiescent point and at exit: no network call; every created/modified path is a configured "
+          "user-dictionary, file-dictionary or statistics file (or a directory leading to one, or a sibling temporary renamed onto one); a snapshot of the "
+          "scratch world shows no stray file and no modified document."),
+    design_ref="DESIGN.md §3 C10",
+    note=("Covers what the workloads reach inside the simulated process; main.rs (loopback listener), HarperOpen and the static dependency graph are outside. "
+          "Assumes dependencies reach the kernel through libc symbols (interposed) rather than raw syscalls."),
+    technique=TECH + "; closed-world invariant over libc seams in every simulated session")
+CLAIMED["C19"]["engine"] = "io-sim"
+CLAIMED["C19"]["text"] += (" A further batch drives the real harper-ls save_stats through lsp-sim: HarperRecordLint commands with server-provided payloads, "
+                            "several server lifetimes appending to one statistics file, short writes and EINTR injected at the libc write seam.")
+
 NA = {
   "C01": "pure function of (text, language, configuration): no schedule, clock, fault, history or second party for a simulator to control; generating inputs would be input fuzzing, not this technique",
   "C02": "pure function Parser::parse(&[char]) -> Vec<Token>; no state, I/O, concurrency or history",
@@ -42,10 +90,7 @@ NA = {
 # properties whose check is designed (DESIGN.md) but not registered yet
 PENDING = {
   "C05": "designed (DESIGN.md §3 C05, engine cache-sim) but the check is not built yet; not claimed until it is",
-  "C07": "designed (DESIGN.md §3 C07, engine lsp-sim) but the check is not built yet; not claimed until it is",
   "C08": "designed (DESIGN.md §3 C08, engine lsp-sim) but the check is not built yet; not claimed until it is",
-  "C09": "designed (DESIGN.md §3 C09, engine lsp-sim) but the check is not built yet; not claimed until it is",
-  "C10": "designed (DESIGN.md §3 C10, engine lsp-sim + libc seam) but the check is not built yet; not claimed until it is",
   "C14": "designed (DESIGN.md §3 C14, engine api-sim) but the check is not built yet; not claimed until it is",
   "C16": "designed (DESIGN.md §3 C16, engine api-sim) but the check is not built yet; not claimed until it is",
 }
